@@ -385,6 +385,8 @@ type hookCfg struct {
 	Kind    string `json:"kind"`
 	ArgAny  bool   `json:"argAny"`
 	Shared  bool   `json:"shared"`
+	// Namesake: an earlier method uses a function of another package that is called like this method's hook
+	Namesake bool `json:"namesake"`
 }
 type hookCall struct {
 	Name string   `json:"name"`
@@ -460,6 +462,9 @@ func hookConcretise(k int, h *hookCase) *b1.Case {
 	hd, hs := star(c.HDstPtr, dstBase), star(c.HSrcPtr, srcBase)
 	switch c.Kind {
 	case "ok":
+		if c.Namesake {
+			hname = "HookPPNN" // called like ext.HookPPNN, which the companion method below uses
+		}
 		fmt.Fprintf(&d, "func %s(d %s, s %s%s)%s %s\n", hname, hd, hs, extra, ret, body)
 	case "funcVar":
 		fmt.Fprintf(&d, "var %s = func(d %s, s %s%s)%s %s\n", hname, hd, hs, extra, ret, body)
@@ -537,8 +542,26 @@ func hookConcretise(k int, h *hookCase) *b1.Case {
 		method = fmt.Sprintf("G%d(%s) %s\n%s\n\t%s", k, strings.Join(cp, ", "), cres, strings.Join(own, "\n"), method)
 		notes = []string{":" + c.Which + "process " + hname}
 	}
+	if c.Namesake {
+		var own []string
+		for _, n := range notes {
+			own = append(own, "\t// "+n)
+		}
+		if c.Kind == "ok" {
+			// the companion's hook is ext.HookPPNN over ext's types; this method's hook is the local HookPPNN
+			method = fmt.Sprintf("G%d(*ext.XS) *ext.XS\n%s\n\t%s", k, strings.Join(own, "\n"), method)
+			notes = []string{":" + c.Which + "process ext.HookPPNN"}
+		} else {
+			// the companion's hook is a local function called like this method's imported hook, of another shape:
+			// both operands by value, an error result
+			bare := strings.TrimPrefix(hname, "ext.")
+			fmt.Fprintf(&d, "type NS%d struct {\n\tX int\n\tY string\n}\n\ntype ND%d struct {\n\tX int\n\tY string\n}\n\nfunc %s(d ND%d, s NS%d) error { return nil }\n", k, k, bare, k, k)
+			method = fmt.Sprintf("G%d(NS%d) (ND%d, error)\n%s\n\t%s", k, k, k, strings.Join(own, "\n"), method)
+			notes = []string{":" + c.Which + "process " + bare}
+		}
+	}
 	return &b1.Case{ID: core.HashID(string(js)), JSON: js, Func: fkey, Style: c.Style, Decls: d.String(), Notes: notes,
-		Method: method, Alone: h.Fit.Reject, Data: h}
+		Method: method, Alone: h.Fit.Reject || c.Namesake, Data: h}
 }
 
 // hookPkgSrc is the package of the blank-imported hooks: the hook functions of ext over ext's types, in a
@@ -571,6 +594,9 @@ func hookDescribe(h *hookCase) string {
 	}
 	if c.Shared {
 		hk += " shared with an earlier method it fits"
+	}
+	if c.Namesake {
+		hk += " next to an earlier method whose hook, of another package, is called the same"
 	}
 	return m + " " + hk
 }
